@@ -4,6 +4,7 @@ import hashlib
 import json
 import os
 import random
+import shutil
 import time
 
 import cnc
@@ -338,7 +339,8 @@ def cfg_c12(rng):
 
 
 def cfg_c15(rng):
-    p = prof_base(rng, time_mode=rng.choice(['mono', 'mono', 'mono', 'rand']), versions=[2], p_rmindex=0.15)
+    p = prof_base(rng, time_mode=rng.choice(['mono', 'mono', 'mono', 'rand']), versions=rng.choice([[2], [2], [1], [1, 2]]),
+                  p_rmindex=0.15)
     p['weights'] = w(trim=30, reopen=8)
     return p
 
@@ -380,7 +382,9 @@ def probes_c17(sh, rng):
 
 
 def probes_c15(sh, rng):
-    return ['probe scan']
+    # Size(m) is what FindBySize subtracts per message: it must be the bytes the message occupies in this log's format
+    m, _ = gens.draw_msg(rng, dict(time_mode='rand'), gens.Shadow())
+    return ['probe scan'] + (['size ' + m] if rng.random() < 0.3 else [])
 
 
 def probes_c16(sh, rng):
@@ -482,13 +486,36 @@ def reg(p):
     REG[p.pid] = p
 
 
+def c02_extra(pid, tier, seed):
+    """batches whose last message sits at the 64 MiB body limit: all three messages get consecutive offsets or none does
+    (the model cannot hold a 64 MiB message; the property is judged on the implementation's answers alone)"""
+    import subprocess
+    d = kv.workdir('edge-' + pid)
+    try:
+        p = os.path.join(d, 'e.txt')
+        open(p, 'w').write('cedge\n')
+        env = dict(os.environ, KV_WORK=os.path.join(d, 'dirs'))
+        os.makedirs(env['KV_WORK'], exist_ok=True)
+        r = subprocess.run([kv.KVRUN, 'conc', p], stdout=subprocess.PIPE, stderr=subprocess.PIPE, text=True, env=env, timeout=900)
+        res = [l for l in r.stdout.split('\n') if l.startswith('= ')]
+        viol = []
+        if r.returncode != 0 or not res or not res[0].startswith('= ok'):
+            viol.append(('P', '# C02 violated: a batch refused (or accepted) at the 64 MiB body limit left offsets assigned twice\n'
+                              '# workload (kvrun conc: cedge): on an empty log Publish [a, b, BIG] with key+value of BIG = 64 MiB - d, then Publish [c], '
+                              'scan, reopen, scan; formats V2 and V1\n# %s\n' % (res[0] if res else r.stderr[-800:])))
+        return viol, dict(size_limit_batches=dict(cases=12, rule='d in {0, 1, 28, 35, 36, -1} x {V2, V1}'))
+    finally:
+        shutil.rmtree(d, ignore_errors=True)
+
+
+
 reg(HistProp('C01', cfg_c01, probes_scan, quick=500, thorough=20000,
              rule='seeded histories (12-28 ops: publish batches 0-5, delete by class, trims, compaction, GC, close/reopen '
                   'with redrawn Rollover/Check/Recover/version options, index files removed, Migrate); after every op the '
                   'full feed-back scan; non-trivial = rollover <= 400 with >= 4 messages, >= 1 delete/trim and >= 1 reopen; '
                   'distinct by SHA1 of the op list',
              nontrivial=has_multi_layout))
-reg(HistProp('C02', cfg_c02, probes_c02, quick=500, thorough=20000,
+reg(HistProp('C02', cfg_c02, probes_c02, quick=500, thorough=20000, extra=c02_extra,
              rule='C01-style histories biased (40%) to delete-last/delete-all/tail then reopen then publish; Publish return '
                   'values and the offsets written back into the caller slice (harness passes offset -77 in), NextOffset, Sync; '
                   'non-trivial as C01', nontrivial=has_multi_layout))
@@ -496,7 +523,7 @@ reg(HistProp('C03', cfg_c01, probes_c03, quick=250, thorough=8000,
              rule='after every op: Consume(off,max) for every off in [-5,next+2] x max in {1,2,3,7,40} plus the feed-back scan; '
                   'before and after them a Consume at a random or resumed absolute offset; plus "resume" cases (a cursor kept '
                   'across the removal of whole earlier segments); non-trivial as C01', nontrivial=has_multi_layout,
-             extra_cases=lambda tier: resume_cases(tier)))
+             extra_cases=lambda tier: resume_cases(tier) + big_segment_cases(tier)))
 reg(HistProp('C04', cfg_c01, probes_c04, quick=400, thorough=12000,
              rule='after every op: Get(off) for off in {-2,-1} and [0,next+2], Consume(off,1) for agreement; non-trivial as C01',
              nontrivial=has_multi_layout))
@@ -619,6 +646,31 @@ def resume_cases(tier):
     return out
 
 
+def big_segment_cases(tier):
+    """segments of well over a hundred messages (index files larger than any read or write buffer), in each index
+    layout, read before and after the index is loaded back from its file (reopen read-write and read-only, GC)"""
+    out = []
+    for i in range(8 if tier == 'quick' else 80):
+        rng = random.Random(case_seed(0, 'bigseg', i))
+        keys, times = [(1, 0), (0, 1), (1, 1), (0, 0)][i % 4]
+        roll = rng.choice([100000, 3000])
+        ver = rng.choice([2, 2, 1])
+        ops = ['open 0 %d %d 0 %d 0 0 %d 0 0' % (keys, times, roll, ver)]
+        t, nxt = 100, 0
+        for _ in range(rng.randrange(4, 7)):
+            ms = []
+            for _ in range(35):
+                t += rng.choice([0, 1])
+                ms.append('%d|%s|%s' % (t, rng.choice(['61', '62', '-', '6100']), gens.hexbytes(rng, rng.choice([1, 3]))))
+            ops.append('pub ' + ' '.join(ms))
+            nxt += 35
+        ops += ['probe scan', 'del %d' % rng.randrange(1, nxt - 1), 'probe scan', 'gc', 'probe scan', 'close',
+                'open 0 %d %d 0 %d 0 0 %d 0 0' % (keys, times, roll, ver), 'probe scan', 'cons %d 40' % rng.randrange(0, nxt), 'stat', 'close',
+                'open 1 %d %d 0 %d 0 0 %d 0 0' % (keys, times, roll, ver), 'probe scan', 'get %d' % rng.randrange(0, nxt), 'close']
+        out.append(('bigseg%d' % i, ops))
+    return out
+
+
 def neg_cases(tier):
     out = []
     for i in range(20 if tier == 'quick' else 300):
@@ -631,6 +683,11 @@ def neg_cases(tier):
 REG['C17'].also = ('C01', 'C02', 'C03', 'C04', 'C09', 'C10', 'C12')
 # C12: "every other message keeps its offset and content" - the scans after a Delete are judged for C12 as well
 REG['C12'].also = ('C01', 'C03')
+# C15: the count and size bounds are stated in Stat numbers and Size(m): their clauses count for C15 as well
+REG['C15'].also = ('C13',)
+# C11: "removing any subset of index files and reopening yields a log that answers every query identically" - Stat is such a
+# query, and every query is judged by its own property's clause on those sessions
+REG['C11'].also = ('C13', 'C01', 'C03', 'C04', 'C09')
 
 
 def get(pid):
